@@ -10,6 +10,9 @@ for line in open(os.path.join(HERE, "CONTRACTS_DRAFT.md")):
         cols = [c.strip() for c in line.strip().strip("|").split("|")]
         PROP_OF[cols[0]] = cols[3].split()
 muts = json.load(open(os.path.join(HERE, "notes", "mutants_confirmed.json")))
+for m in json.load(open(os.path.join(HERE, "notes", "mutants_extra.json"))):     # mutants written during the build phase
+    muts.append(m)
+    PROP_OF[m["id"]] = m["props"]
 want = set(sys.argv[1:])
 claimed = {c["property_id"] for c in json.load(open(os.path.join(HERE, "MANIFEST.json")))["checks"]}
 rows = []
